@@ -6,13 +6,12 @@
 import Fips204.Impl.Api
 import Fips204.Exec.Keccak
 import Fips204.Exec.Sha2
+import Fips204.Exec.Oracles
 import Fips204.Spec.MlDsa
 open Fips204 Fips204.Gen Fips204.Impl
 
 namespace Fips204.Exec
 
-def realOracles (scale : Nat) : Oracles :=
-  { h := shake256, g := shake128, sha256 := sha256, sha512 := sha512, fuelScale := scale }
 
 -- ---------------------------------------------------------------- parsing / printing
 def hexVal (c : Char) : Nat :=
